@@ -80,7 +80,7 @@ func init() { core.Register("tlogproof", func() core.World { return &tlogProofWo
 type tlogProofWorld struct{}
 
 func (w *tlogProofWorld) Check(c *core.Case) ([]core.Violation, bool) { return checkProofCase(c) }
-func (w *tlogProofWorld) Finish() []core.Violation                  { return nil }
+func (w *tlogProofWorld) Finish() []core.Violation                    { return nil }
 
 // Record: big random trees; each event is one proof with the stored-hash
 // positions it was assembled from and the fate of simple mutations.
